@@ -188,9 +188,9 @@ CHECKS["C08"] = sched_check("C08",
     "cases = (program, schedule). (a) quiescence programs: an owner thread allocates blocks of classes that fill pages (16 B-1 MiB; single-block pages sit in the full queue at once), "
     "1-2 other threads free them in generated order while the owner interleaves malloc/free/collect; schedules as in C02 (all single preemptions, sampled multi-preemption schedules "
     "biased to shared addresses, spurious weak-CAS failures). Oracle: after everything was freed by whichever thread and the owner force-collects, its heap reports no used block; at the "
-    "very end nothing is left anywhere (main-thread collect, abandoned walk, no OS segment mapped). (b) bounded producer/consumer runs of 200-1500 rounds with at most 1/4/16/64 blocks in "
-    "flight (generic_collect raised so that the periodic collect cannot mask a leak): the number of areas of the producing heap sampled 20 times does not grow from the first to the second "
-    "half by more than 2 and stays below 4+4*ceil(live/blocks-per-page). (c) keeper rounds: the owner posts blocks of one size class of its own heap to 1-2 helper threads; per round early "
+    "very end nothing is left anywhere (main-thread collect, abandoned walk, no OS segment mapped). (b) bounded producer/consumer runs of 600-2500 rounds with at most 1/4/16/64 blocks of 16 B-100 KiB in "
+    "flight (generic_collect raised so that the periodic collect cannot mask a leak): the number of areas of the producing heap, sampled 20 times over the run, stays below "
+    "ceil(live/blocks-per-page) + 100 (one period of the every-100-generic-allocations clean-up) + 32, independent of the number of rounds. (c) keeper rounds: the owner posts blocks of one size class of its own heap to 1-2 helper threads; per round early "
     "remote frees into a not-yet-full page, fill the page of a keeper block, remote-free all but the keeper; reuse probe at quiescence: after a non-forced collect the owner allocates exactly as many "
     "blocks as the heap's area report says still fit and the heap must not take a fresh page for them; at the end the heap holds no area. Non-trivial = (a) a remote free happened, the §4.3 conflict rule holds (preempted inside a call + conflicting "
     "write by another thread) and the quiescence clause was evaluated, or (b) a producer/consumer run of >= 600 rounds completed, or (c) a block was remote-freed into a page the heap reported full and a reuse probe with room > 0 was evaluated. Distinct = hash of (program IR + schedule).",
